@@ -84,6 +84,15 @@ def structural(pieces, cfg, thorough):
         emit("dup-body[%d]" % i, clone(), b3)
         h2 = clone(); h2.chunks = [h2.chunks[k] for k in dup]; emit("dup-index[%d]" % i, h2, body)
         h2 = clone(); h2.chunks = [h2.chunks[k] for k in dup]; emit("dup-both[%d]" % i, h2, b3, True)
+    # the 5-byte identifier is not covered by the header checksum: every mix of the letters of the two valid identifiers
+    # (the full-file identifier on a detached header and vice versa included), on the full file and on its detached twin
+    twin = universe.detach(f)
+    for src, tag in ((f, "full"), (twin, "detached-twin")):
+        for a in (b"C", b"H"):
+            for b2 in (b"K", b"R"):
+                m = b"\0Z" + a + b2 + b"1" + src[5:]
+                if m != src:
+                    out.append(("magic=Z%s%s1(%s)" % (a.decode(), b2.decode(), tag), m))
     if thorough:
         # all pairs of the single-field deviations (sizes and digests), re-sealed
         fields = []
